@@ -2148,12 +2148,14 @@ def run_check(pid, tier, replay, theorems, targets, module, kinds, profile, with
         recs, strat = [r], {}
         evaluate(recs, with_model=False, with_python=with_python, log=ck.log)
     else:
-        n_base, budget = (10, 100) if quick else (150, 10 ** 9)
+        # thorough: a stratified sample thirty times the quick one (every mutant of 150 programs is ~35k cases,
+        # more than an hour of type checking: measured, not feasible as a routine tier)
+        n_base, budget = (10, 100) if quick else (60, 3000)
         if pid == "C04" and quick:
             n_base, budget = 30, 70        # what matters for C04 are ACCEPTED programs: more conforming bases
         if pid == "C05" and quick:
             n_base, budget = 14, 220       # eight mutation kinds x site kinds x positions: more strata to hit
-        recs, strat = build_cases(ck.rng, profile, kinds, n_base, budget, pid, all_mutants=not quick, log=ck.log)
+        recs, strat = build_cases(ck.rng, profile, kinds, n_base, budget, pid, all_mutants=False, log=ck.log)
         evaluate(recs, with_model=True, with_python=with_python, log=ck.log)
     runs = judge_runs(ck, recs) if with_python else None
     if judge_spec:
@@ -2202,7 +2204,7 @@ def run_check(pid, tier, replay, theorems, targets, module, kinds, profile, with
         "rule": "fixed corpus (one witness per known finding + sanity cases) + generated conforming programs (classes with "
                 "typed fields / methods / optional parent, functions with defaults and raise, nullable types, every "
                 "statement form of the mini-language) + single-point mutants chosen evenly over the strata (mutation kind, "
-                "site kind, enclosing definition, innermost position); thorough: every mutant of 150 programs; distinct by "
+                "site kind, enclosing definition, innermost position); thorough: 3000 mutants of 60 programs, stratified; distinct by "
                 "source text; non-trivial = mutant at a nested position (loop / branch / match arm / handle arm / "
                 "nested call argument inside function, method or top level)",
         "verdicts": n, "runs": runs, "strata": strat, "mutants_by_position": positions, "mutants_by_kind": muts,
